@@ -317,7 +317,8 @@ func (t *T) expr(e ast.Expr) (string, error) {
 
 type kont struct {
 	fall func() (string, error)
-	cont func() (string, error) // continue (nil = not inside a loop)
+	cont func() (string, error) // continue (nil = not inside a loop): post statement, then the next round
+	brk  func() (string, error) // break: leave the loop through its continuation
 }
 
 func (t *T) bind(name, kind string) string {
@@ -533,9 +534,21 @@ func (t *T) block(l []ast.Stmt, k kont) (string, error) {
 			return t.block(append(append([]ast.Stmt{}, b.List...), l[1:]...), k)
 		}
 		return t.block(append([]ast.Stmt{chain}, l[1:]...), k)
+	case *ast.IncDecStmt:
+		// x++ / x--  =  x = x ± 1
+		op := token.ADD
+		if s.Tok == token.DEC {
+			op = token.SUB
+		}
+		as := &ast.AssignStmt{Lhs: []ast.Expr{s.X}, Tok: token.ASSIGN,
+			Rhs: []ast.Expr{&ast.BinaryExpr{X: s.X, Op: op, Y: &ast.BasicLit{Kind: token.INT, Value: "1"}}}}
+		return t.block(append([]ast.Stmt{as}, l[1:]...), k)
 	case *ast.BranchStmt:
 		if s.Tok == token.CONTINUE && s.Label == nil && k.cont != nil {
 			return k.cont()
+		}
+		if s.Tok == token.BREAK && s.Label == nil && k.brk != nil {
+			return k.brk()
 		}
 		return "", t.errf(s, "unsupported branch statement")
 	case *ast.DeclStmt:
@@ -644,7 +657,7 @@ func (t *T) block(l []ast.Stmt, k kont) (string, error) {
 				return "", err
 			}
 			e0 := t.saveEnv()
-			a, err := t.block(s.Body.List, kont{fall: rest, cont: k.cont})
+			a, err := t.block(s.Body.List, kont{fall: rest, cont: k.cont, brk: k.brk})
 			if err != nil {
 				return "", err
 			}
@@ -657,7 +670,7 @@ func (t *T) block(l []ast.Stmt, k kont) (string, error) {
 			default:
 				elseL = []ast.Stmt{x}
 			}
-			b, err := t.block(elseL, kont{fall: rest, cont: k.cont})
+			b, err := t.block(elseL, kont{fall: rest, cont: k.cont, brk: k.brk})
 			if err != nil {
 				return "", err
 			}
@@ -681,7 +694,7 @@ func (t *T) block(l []ast.Stmt, k kont) (string, error) {
 			id := as.Lhs[0].(*ast.Ident)
 			pre = fmt.Sprintf("let %s := %s in\n  ", t.bind(id.Name, t.kindOf(t.p.Info.Defs[id].Type())), v)
 		}
-		var bodyL []ast.Stmt
+		var bodyL, postL []ast.Stmt
 		bodyL = append(bodyL, s.Body.List...)
 		if s.Post != nil {
 			switch ps := s.Post.(type) {
@@ -690,7 +703,7 @@ func (t *T) block(l []ast.Stmt, k kont) (string, error) {
 				if ps.Tok == token.DEC {
 					op = token.SUB
 				}
-				bodyL = append(bodyL, &ast.AssignStmt{Lhs: []ast.Expr{ps.X}, Tok: token.ASSIGN,
+				postL = append(postL, &ast.AssignStmt{Lhs: []ast.Expr{ps.X}, Tok: token.ASSIGN,
 					Rhs: []ast.Expr{&ast.BinaryExpr{X: ps.X, Op: op, Y: &ast.BasicLit{Kind: token.INT, Value: "1"}}}})
 			default:
 				return "", t.errf(s, "unsupported for post statement")
@@ -734,7 +747,11 @@ func (t *T) block(l []ast.Stmt, k kont) (string, error) {
 				return "", err
 			}
 			t.fuel = "(S " + fuelv + "')"
-			body, err := t.block(bodyL, kont{fall: recur, cont: recur})
+			// the end of the body and `continue` run the post statement, then the next round;
+			// `break` leaves through the loop's continuation with the variables as they are
+			next := func() (string, error) { return t.block(postL, kont{fall: recur}) }
+			leave := func() (string, error) { return fmt.Sprintf("K_ %s tr", strings.Join(args, " ")), nil }
+			body, err := t.block(bodyL, kont{fall: next, cont: next, brk: leave})
 			if err != nil {
 				return "", err
 			}
